@@ -433,6 +433,15 @@ func (b *budget) take() bool {
 	return false
 }
 
+func (b *budget) refund() {
+	b.mu.Lock()
+	defer b.mu.Unlock()
+	b.attempts--
+	if !b.unlimited {
+		b.left++
+	}
+}
+
 func (b *budget) arm(k int) {
 	b.mu.Lock()
 	b.unlimited, b.left, b.attempts = false, k, 0
@@ -491,7 +500,11 @@ func (s crashRoundStore) SaveRoundReplayedHeader(ctx context.Context, h tmconsen
 	if !s.b.take() {
 		return nil
 	}
-	return s.RoundStore.SaveRoundReplayedHeader(ctx, h)
+	err := s.RoundStore.SaveRoundReplayedHeader(ctx, h)
+	if err != nil {
+		s.b.refund() // the store refused: nothing was written
+	}
+	return err
 }
 
 func (s crashRoundStore) OverwriteRoundPrevoteProofs(ctx context.Context, h uint64, r uint32, p tmconsensus.SparseSignatureCollection) error {
@@ -827,39 +840,58 @@ func (rn *runner) replay(v, c *tmconsensus.VersionedRoundView) {
 	rn.touched[hr{h, r}] = true
 	rn.touched[hr{h, R}] = true
 	rn.touched[hr{h, R + 1}] = true
-	resp := make(chan tmelink.ReplayedHeaderResponse, 1)
-	select {
-	case rn.replayIn <- tmelink.ReplayedHeaderRequest{Header: hd, Proof: proof, Resp: resp}:
-	case <-time.After(3 * time.Second):
-		panic("kernel did not take the replayed header")
-	}
-	var rr tmelink.ReplayedHeaderResponse
-	select {
-	case rr = <-resp:
-	case <-time.After(3 * time.Second):
-		panic("kernel did not answer the replayed header")
-	}
-	code := uint64(0)
-	if rr.Err != nil {
-		var oos tmelink.ReplayedHeaderOutOfSyncError
-		var val tmelink.ReplayedHeaderValidationError
-		switch {
-		case errors.As(rr.Err, &oos):
-			code = 1
-		case errors.As(rr.Err, &val):
-			code = 2
-		default:
-			code = 3
-		}
-	} else {
-		rn.valsAt[h+1] = next
-	}
-	rn.stats[fmt.Sprintf("replay_variant_%d", variant)]++
-	rn.stats[fmt.Sprintf("replay_res_%d", code)]++
 	if hdCoq == "" {
 		hdCoq = rn.coqHdr(hd, hashOK, curHdr, nextHdr)
 	}
-	rn.emit(fmt.Sprintf("(OpReplay %s %s)", hdCoq, w.coqCProof(proof)), code)
+	opCoq := fmt.Sprintf("(OpReplay %s %s)", hdCoq, w.coqCProof(proof))
+	var deliver func() uint64
+	deliver = func() uint64 {
+		if rn.pendingCrash >= 0 {
+			// the driver offers the header again after the restart
+			rn.redo = func() {
+				if v2, _ := rn.views(); !rn.hazards && v2.Height == h && r < v2.Round {
+					// the restart moved the mirror past the replayed round: offering the header again is the
+					// known finding "replay for an earlier round" (generated only with -hazards)
+					rn.stats["redelivery_skipped_earlier_round"]++
+					return
+				}
+				rn.stats["redelivered_replay"]++
+				rn.emit(opCoq, deliver())
+			}
+		}
+		resp := make(chan tmelink.ReplayedHeaderResponse, 1)
+		select {
+		case rn.replayIn <- tmelink.ReplayedHeaderRequest{Header: hd, Proof: proof, Resp: resp}:
+		case <-time.After(3 * time.Second):
+			panic("kernel did not take the replayed header")
+		}
+		var rr tmelink.ReplayedHeaderResponse
+		select {
+		case rr = <-resp:
+		case <-time.After(3 * time.Second):
+			panic("kernel did not answer the replayed header")
+		}
+		code := uint64(0)
+		if rr.Err != nil {
+			var oos tmelink.ReplayedHeaderOutOfSyncError
+			var val tmelink.ReplayedHeaderValidationError
+			switch {
+			case errors.As(rr.Err, &oos):
+				code = 1
+			case errors.As(rr.Err, &val):
+				code = 2
+			default:
+				code = 3
+			}
+		} else {
+			rn.valsAt[h+1] = next
+		}
+		rn.stats[fmt.Sprintf("replay_res_%d", code)]++
+		return code
+	}
+	code := deliver()
+	rn.stats[fmt.Sprintf("replay_variant_%d", variant)]++
+	rn.emit(opCoq, code)
 	if code == 2 && h == H && w.r.chance(1, 2) {
 		// the replay was refused: the same precommits arriving as ordinary gossip must not commit it either
 		rn.stats["replay_refused_then_gossip"]++
@@ -1215,7 +1247,7 @@ func (rn *runner) step() {
 			return
 		}
 	}
-	if replayMode && rn.pendingCrash < 0 && w.r.chance(1, 9) {
+	if replayMode && w.r.chance(1, 9) {
 		rn.replay(&v, &c)
 		return
 	}
